@@ -295,4 +295,3 @@ package pool
 //@ func (p *PeerPool) getPeerAddr
 //@   modifies nothing
 //@   ensures result == nodeID || result == strcat(nodeID, ":8081")
-
